@@ -57,8 +57,11 @@ Definition val (h : heap) (x : rs) : list range :=
 Definition rs_len (x : rs) : nat :=
   match x with Alias s => sl_len s | Own l => length l end.
 
-Record href := mkH { h_art : art; h_map : mapper; h_rs : rs }.
-Definition set_rs (r : href) (x : rs) : href := mkH (h_art r) (h_map r) x.
+(** [h_size]: Size() of the artifact (= zlen (acontent (h_art r)) for the
+    artifacts of Model/Refs.v; kept beside the artifact so that evaluating the
+    model does not walk over the content list at every Resolve) *)
+Record href := mkH { h_art : art; h_size : Z; h_map : mapper; h_rs : rs }.
+Definition set_rs (r : href) (x : rs) : href := mkH (h_art r) (h_size r) (h_map r) x.
 Definition hval (h : heap) (r : href) : ref := mkRef (h_art r) (h_map r) (val h (h_rs r)).
 
 (** [Ranges.SortAndMerge] on a holder. *)
@@ -170,16 +173,16 @@ Fixpoint hresolve (h : heap) (s : list href) : list href * bool :=
   | r :: t =>
       if is_nil (h_map r) then let '(t', e) := hresolve h t in (r :: t', e)
       else
-        match resolve (h_map r) (zlen (acontent (h_art r))) (val h (h_rs r)) with
-        | Ok rs => let '(t', e) := hresolve h t in (mkH (h_art r) MNil (Own rs) :: t', e)
+        match resolve (h_map r) (h_size r) (val h (h_rs r)) with
+        | Ok rs => let '(t', e) := hresolve h t in (mkH (h_art r) (h_size r) MNil (Own rs) :: t', e)
         | _ => (r :: t, true)
         end
   end.
 
 (** ** The log *)
 
-(** a reference of the log: artifact, mapper, the slice header of its Ranges *)
-Definition lref : Type := (art * mapper * sl)%type.
+(** a reference of the log: artifact, its Size(), mapper, the slice header of its Ranges *)
+Record lref := mkL { l_art : art; l_size : Z; l_map : mapper; l_sl : sl }.
 Record hstep := mkHS {
   hs_actor : option Z;
   hs_code : option (list lref);
@@ -187,18 +190,17 @@ Record hstep := mkHS {
   hs_issues : list Z
 }.
 
-Definition alias (r : lref) : href := let '(a, m, s) := r in mkH a m (Alias s).
+Definition alias (r : lref) : href := mkH (l_art r) (l_size r) (l_map r) (Alias (l_sl r)).
 
 (** what a reader of the log sees *)
-Definition val_lref (h : heap) (r : lref) : ref := let '(a, m, s) := r in mkRef a m (rd h s).
+Definition val_lref (h : heap) (r : lref) : ref := mkRef (l_art r) (l_map r) (rd h (l_sl r)).
 Definition val_step (h : heap) (st : hstep) : step :=
   mkStep (hs_actor st) (option_map (map (val_lref h)) (hs_code st)) (map (val_lref h) (hs_meas st)) (hs_issues st).
 Definition val_log (h : heap) (l : list hstep) : list step := map (val_step h) l.
 
 (** all slice headers of the log *)
 Definition step_windows (st : hstep) : list sl :=
-  map (fun r : lref => snd r) (hs_meas st) ++
-  match hs_code st with Some c => map (fun r : lref => snd r) c | None => [] end.
+  map l_sl (hs_meas st) ++ match hs_code st with Some c => map l_sl c | None => [] end.
 Definition windows (l : list hstep) : list sl := flat_map step_windows l.
 
 (** ** ValidatorActorsAreProtected.Validate *)
